@@ -300,8 +300,14 @@ func (c connectUnaryServerProtocol) extractProtocolResponseHeaders(statusCode in
 		}
 		endUnmarshaller = func(_ Codec, buf *bytes.Buffer, end *responseEnd) {
 			var wireErr connectWireError
-			if err := json.Unmarshal(buf.Bytes(), &wireErr); err != nil {
-				end.err = connect.NewError(connect.CodeInternal, err)
+			if err := json.Unmarshal(buf.Bytes(), &wireErr); err != nil || wireErr.Code == 0 {
+				// Not a Connect error (e.g. a failure reported by a proxy or the HTTP
+				// server itself): infer the code from the HTTP status.
+				code := httpStatusCodeToRPC(statusCode)
+				if code == 0 {
+					code = connect.CodeUnknown
+				}
+				end.err = connect.NewError(code, fmt.Errorf("unexpected HTTP error: %d %s", statusCode, http.StatusText(statusCode)))
 				return
 			}
 			end.err = wireErr.toConnectError()
